@@ -939,6 +939,116 @@ pub fn task_scenario(subscribing: bool, delayed: bool, bound: u32, max_execs: u6
   }
 }
 
+// ----------------------------------------------------------- composite subscription (C17)
+
+#[derive(Clone, Default)]
+pub struct Child(Arc<std::sync::atomic::AtomicBool>);
+impl Subscription for Child {
+  fn unsubscribe(self) {
+    self.0.store(true, Ordering::SeqCst);
+  }
+  fn is_closed(&self) -> bool {
+    self.0.load(Ordering::SeqCst)
+  }
+}
+
+/// MultiSubscriptionThreads: `n_append` threads append one live child each while
+/// another thread unsubscribes the composite through a clone
+pub fn composite_scenario(n_append: usize, bound: u32, max_execs: u64) -> Scenario {
+  Scenario {
+    name: format!("MultiSubscriptionThreads: {n_append} x append(live child) || unsubscribe c<={bound}"),
+    sig: "MultiSubscriptionThreads".into(),
+    bound,
+    max_execs,
+    body: Arc::new(move |ctx: &Arc<Ctx>, out: &mut Out| {
+      let comp = MultiSubscriptionThreads::default();
+      let kids: Vec<Child> = (0..n_append).map(|_| Child::default()).collect();
+      let mut hs = vec![];
+      for k in kids.iter().cloned() {
+        let mut c = comp.clone();
+        hs.push(shuttle::thread::spawn(move || c.append(BoxSubscriptionThreads::new(k))));
+      }
+      let c2 = comp.clone();
+      hs.push(shuttle::thread::spawn(move || c2.unsubscribe()));
+      for h in hs {
+        h.join().unwrap();
+      }
+      // whatever the order was: the composite has been unsubscribed, so it
+      // reports closed and no child may be left running
+      if !comp.is_closed() {
+        ctx.fail("C17:composite-open-after-unsubscribe:MultiSubscriptionThreads", "a remaining handle reports open after unsubscribe() returned");
+      }
+      for (i, k) in kids.iter().enumerate() {
+        if !k.is_closed() {
+          ctx.fail(
+            "C17:child-left-running:MultiSubscriptionThreads",
+            format!("child {i}: its append() and the composite's unsubscribe() have both returned, the child was never unsubscribed"),
+          );
+        }
+      }
+      out.delivered = kids.len() as u64;
+      out.note(&kids.iter().map(|k| k.is_closed()).collect::<Vec<_>>());
+      out.trace.push(format!("children unsubscribed: {:?}", kids.iter().map(|k| k.is_closed()).collect::<Vec<_>>()));
+    }),
+  }
+}
+
+// ----------------------------------------------------------- share (C11)
+
+/// share_threads over a hot source behind a counting tap: two threads join,
+/// then the subscribers leave one after the other
+pub fn share_scenario(bound: u32, max_execs: u64) -> Scenario {
+  Scenario {
+    name: format!("share_threads: subscribe A || subscribe B, then A leaves, emit, B leaves, emit c<={bound}"),
+    sig: "share_threads".into(),
+    bound,
+    max_execs,
+    body: Arc::new(move |ctx: &Arc<Ctx>, out: &mut Out| {
+      let mut src = Subj::default();
+      let taps = Arc::new(AtomicUsize::new(0));
+      let subs = Arc::new(AtomicUsize::new(0));
+      let (t2, s2, srcc) = (taps.clone(), subs.clone(), src.clone());
+      let shared = observable::defer(move || {
+        s2.fetch_add(1, Ordering::SeqCst);
+        srcc.clone()
+      })
+      .tap(move |_| {
+        t2.fetch_add(1, Ordering::SeqCst);
+      })
+      .share_threads();
+      let (pa, pb) = (TProbe::new("a", ctx), TProbe::new("b", ctx));
+      let (sa, pa2) = (shared.clone(), pa.clone());
+      let ta = shuttle::thread::spawn(move || sa.actual_subscribe(pa2));
+      let (sb, pb2) = (shared.clone(), pb.clone());
+      let tb = shuttle::thread::spawn(move || sb.actual_subscribe(pb2));
+      let ua = ta.join().unwrap();
+      let ub = tb.join().unwrap();
+      if subs.load(Ordering::SeqCst) != 1 {
+        ctx.fail("C11:source-subscriptions:share_threads", format!("source subscribed {} times", subs.load(Ordering::SeqCst)));
+      }
+      src.next(1);
+      ua.unsubscribe();
+      src.next(2);
+      ub.unsubscribe();
+      let taps_at_end = taps.load(Ordering::SeqCst);
+      src.next(3);
+      if pa.notes() != vec![Note::N(1)] || pb.notes() != vec![Note::N(1), Note::N(2)] {
+        ctx.fail(
+          "C11:multicast:share_threads",
+          format!("A (present for 1) saw [{}], B (present for 1 and 2) saw [{}]", fmt_notes(&pa.notes()), fmt_notes(&pb.notes())),
+        );
+      }
+      if taps.load(Ordering::SeqCst) != taps_at_end {
+        ctx.fail("C11:driven-after-last-unsubscribe:share_threads", "the upstream tap ran after the last subscriber had left");
+      }
+      out.delivered = (pa.notes().len() + pb.notes().len()) as u64;
+      out.note(&pa.notes());
+      out.note(&pb.notes());
+      out.trace.push(format!("A [{}] B [{}] taps {}", fmt_notes(&pa.notes()), fmt_notes(&pb.notes()), taps.load(Ordering::SeqCst)));
+    }),
+  }
+}
+
 // ----------------------------------------------------------- plans
 
 pub struct Plan {
@@ -1087,6 +1197,27 @@ pub fn plan(prop: &str, tier: Tier) -> Option<Plan> {
       Some(Plan {
         scenarios: sc,
         rule: "merge_all_threads(limit) over hot inner subjects, inner 0 already running: one thread delivers the remaining inners and completes the outer while another drives and completes inner 0; afterwards the other inners are driven and completed; every schedule within the preemption bound; oracle: every inner item exactly once and then completion (a queued inner that is never started, or started twice, shows as a lost / duplicated item or a missing completion), no overlapping callbacks, nothing blocks".into(),
+        bounds: json!({"preemptions": c}),
+        assumptions: vec!["sequentially consistent memory".into()],
+      })
+    }
+    "C17" => {
+      let c = if q { 3 } else { 4 };
+      sc.push(composite_scenario(1, c + 1, CAP));
+      sc.push(composite_scenario(2, c, CAP));
+      Some(Plan {
+        scenarios: sc,
+        rule: "MultiSubscriptionThreads shared by one or two threads appending a live child each and one thread unsubscribing the composite through a clone; every schedule within the preemption bound; oracle once all calls have returned: every remaining handle reports closed and every child has been unsubscribed, whichever of append / unsubscribe came first".into(),
+        bounds: json!({"preemptions": c}),
+        assumptions: vec!["sequentially consistent memory".into()],
+      })
+    }
+    "C11" => {
+      let c = if q { 3 } else { 4 };
+      sc.push(share_scenario(c, CAP));
+      Some(Plan {
+        scenarios: sc,
+        rule: "share_threads over a hot source behind a counting tap: two threads subscribe concurrently (one of them connects), then A leaves, the source emits, B leaves, the source emits; every schedule of the two joins within the preemption bound; oracle: one source subscription, each subscriber sees exactly the items emitted while it was present, the upstream is not driven after the last leaver".into(),
         bounds: json!({"preemptions": c}),
         assumptions: vec!["sequentially consistent memory".into()],
       })
